@@ -102,6 +102,9 @@ func (c *Ctx) Violate(sig, format string, a ...interface{}) {
 		c.verdict = VViolated
 		c.sig = sig
 		c.msg = fmt.Sprintf(format, a...)
+		if len(c.msg) > 900 {
+			c.msg = c.msg[:600] + " …[" + fmt.Sprint(len(c.msg)-800) + " bytes elided]… " + c.msg[len(c.msg)-200:]
+		}
 	}
 }
 
